@@ -1,5 +1,11 @@
 // opaque crate/external types of the daemon units that do not look inside records or services
-#[verifier::external_body] pub struct Interface { x: u8 }
+// if_addrs::Interface through the fields / methods the daemon code reads
+pub struct Interface { pub name: String, pub addr: IfAddr, pub index: Option<u32> }
+impl Interface {
+    #[verifier::external_body]
+    pub fn ip(&self) -> (r: IpAddr) { unimplemented!() }
+}
+pub assume_specification [IpAddr::is_ipv4] (a: &IpAddr) -> (r: bool);
 #[verifier::external_body] pub struct IfAddr { x: u8 }
 // ServiceInfo: opaque but for its per-interface status table; DnsRegistry: opaque but for a ghost log of the
 // announcements made with it (announce_service_on_intf) - what the re-send handler is specified against
@@ -17,10 +23,11 @@ impl ServiceInfo {
     pub uninterp spec fn ident(&self) -> int;
     #[verifier::external_body]
     pub fn set_status(&mut self, if_index: u32, status: ServiceStatus)
-        ensures final(self).statuses() == old(self).statuses().insert(if_index, status), final(self).ident() == old(self).ident(), final(self).fullname() == old(self).fullname(),
+        ensures final(self).statuses() == old(self).statuses().insert(if_index, status), final(self).ident() == old(self).ident(), final(self).fullname() == old(self).fullname(), final(self).auto_spec() == old(self).auto_spec(),
     { unimplemented!() }
     #[verifier::external_body]
     pub fn get_hostname(&self) -> (r: &str) { unimplemented!() }
+    pub uninterp spec fn auto_spec(&self) -> bool;
     pub uninterp spec fn fullname(&self) -> Seq<char>;
     #[verifier::external_body]
     pub fn get_fullname(&self) -> (r: &str) ensures r@ == self.fullname() { unimplemented!() }
